@@ -2,6 +2,11 @@ package main
 
 import (
 	"go/ast"
+	"os"
+	"path/filepath"
+	"reflect"
+	"sort"
+	"strconv"
 	"strings"
 )
 
@@ -60,5 +65,82 @@ func genWiring() {
 		})
 	}
 	g.line("Definition cookie_flags : list (list N) := %s.", coqStrList(flags))
+	// option_tags: every struct field of pkg/apis/options that is bound to a command-line flag, as "flag cfg";
+	// the loader ties the configuration key (and the environment variable derived from it) to the flag NAMED IN THE
+	// TAG, so a field whose two names disagree beyond the usual singular/plural spelling reads another option's flag.
+	// irregular = cfg is not the flag with "-" for "_" (optionally with a plural "s").
+	// unregistered = a tagged flag name no FlagSet registers; untagged = a registered flag no field is tagged with.
+	tagged := map[string]bool{}
+	registered := map[string]bool{}
+	var irregular []string
+	dir := filepath.Join(*repo, "pkg/apis/options")
+	ents, _ := os.ReadDir(dir)
+	for _, e := range ents {
+		if e.IsDir() || !strings.HasSuffix(e.Name(), ".go") || strings.HasSuffix(e.Name(), "_test.go") {
+			continue
+		}
+		orel := "pkg/apis/options/" + e.Name()
+		f := parse(orel)
+		if f == nil {
+			continue
+		}
+		ast.Inspect(f, func(n ast.Node) bool {
+			switch x := n.(type) {
+			case *ast.Field:
+				if x.Tag == nil {
+					return true
+				}
+				raw, err := strconv.Unquote(x.Tag.Value)
+				if err != nil {
+					return true
+				}
+				st := reflect.StructTag(raw)
+				fl, ok1 := st.Lookup("flag")
+				cf, ok2 := st.Lookup("cfg")
+				if !ok1 {
+					return true
+				}
+				tagged[fl] = true
+				want := strings.ReplaceAll(fl, "-", "_")
+				if !ok2 || (cf != want && cf != want+"s") {
+					irregular = append(irregular, fl+" "+cf)
+				}
+			case *ast.CallExpr:
+				sel, ok := x.Fun.(*ast.SelectorExpr)
+				if !ok || len(x.Args) < 3 {
+					return true
+				}
+				switch sel.Sel.Name {
+				case "String", "StringSlice", "StringArray", "Bool", "Int", "Duration", "Float64", "Int64", "Uint", "StringToString":
+					if id, ok := sel.X.(*ast.Ident); ok && strings.HasSuffix(strings.ToLower(id.Name), "flagset") {
+						if name, ok := evalString(x.Args[0]); ok {
+							registered[name] = true
+						}
+					}
+				}
+			}
+			return true
+		})
+	}
+	var unregistered, untagged []string
+	for n := range tagged {
+		if !registered[n] {
+			unregistered = append(unregistered, n)
+		}
+	}
+	for n := range registered {
+		if !tagged[n] {
+			untagged = append(untagged, n)
+		}
+	}
+	sort.Strings(irregular)
+	sort.Strings(unregistered)
+	sort.Strings(untagged)
+	g.line("(* fields whose cfg key is not their flag name with _ for - (plural s allowed): \"flag cfg\" *)")
+	g.line("Definition option_tags_irregular : list (list N) := %s.", coqStrList(irregular))
+	g.line("(* flag names in struct tags that no flag set registers / registered flags no field is tagged with *)")
+	g.line("Definition option_flags_unregistered : list (list N) := %s.", coqStrList(unregistered))
+	g.line("Definition option_flags_untagged : list (list N) := %s.", coqStrList(untagged))
+	g.line("Definition option_flags_tagged : nat := %d.", len(tagged))
 	g.write("Wiring.v")
 }
